@@ -46,7 +46,7 @@ class World:
 
 # ------------------------------------------------------------------------------------ class table
 MODEL_BUILTINS = ["builtins.object", "builtins.tuple", "builtins.function", "builtins.type", "builtins.int",
-                  "builtins.str", "typing.Sequence"]
+                  "builtins.bytes", "typing.Sequence"]
 MODEL_USER = ["A", "B", "C", "D", "E", "F", "Inv", "Co", "Cn", "Sub", "CoSub", "CoP", "CnP", "InvCo"]
 
 
@@ -217,7 +217,7 @@ class Terms:
                 return None
             return "(C (" + " ".join(args) + ") " + ret + ")"          # type: ignore[arg-type]
         if isinstance(t, LiteralType):
-            if t.fallback.type.fullname not in ("builtins.int", "builtins.str") or t.fallback.args:
+            if t.fallback.type.fullname not in ("builtins.int", "builtins.bytes") or t.fallback.args:
                 return None
             v = self.lit_value(t.value)
             if v is None:
